@@ -14,6 +14,7 @@ type sgen struct {
 	ctr   int
 	nconn int
 	live  []string // cids believed open
+	dead  []string // cids that were closed: their handles are stale
 	et    bool
 	rbc   int
 	hist  map[string]int
@@ -91,6 +92,13 @@ func (g *sgen) trafficProg() string {
 		hops = append(hops, "elclose")
 	case 2:
 		hops = append(hops, "close")
+	case 3:
+		if g.r.Intn(2) == 0 { // the handler ends the engine, possibly after closing its own connection synchronously
+			if g.r.Intn(2) == 0 {
+				hops = append(hops, "elclose")
+			}
+			ret = "shutdown"
+		}
 	}
 	return strings.Join(append(hops, "ret:"+ret), ";")
 }
@@ -103,6 +111,7 @@ func (g *sgen) pickLive() string {
 }
 
 func (g *sgen) drop(cid string) {
+	g.dead = append(g.dead, cid)
 	for i, c := range g.live {
 		if c == cid {
 			g.live = append(g.live[:i], g.live[i+1:]...)
@@ -120,7 +129,7 @@ func (g *sgen) connect() {
 
 func (g *sgen) stream(id int, faults bool) {
 	fmt.Fprintf(&g.b, "case %d\n", id)
-	g.nconn, g.live = 0, nil
+	g.nconn, g.live, g.dead = 0, nil, nil
 	g.big = id%10 == 9
 	mode := g.r.Pick(0, 0, 1, 2)
 	chunk := 0
@@ -145,12 +154,52 @@ func (g *sgen) stream(id int, faults bool) {
 	}
 	g.emit("prog open " + open)
 	g.emit("prog traffic " + g.trafficProg())
-	g.emit("prog close ret:none")
+	// what the handler does inside OnClose: mostly nothing; sometimes it says goodbye, flushes, or closes again
+	closeProg := "ret:none"
+	if g.r.Intn(3) == 0 {
+		closeProg = []string{
+			"write:" + g.payload(g.size()) + ";ret:none",
+			"writev:" + g.payload(3) + "," + g.payload(40) + ";ret:none",
+			"flush;ret:none",
+			"elclose;ret:none",
+			"close;ret:none",
+			"asyncwrite:" + g.payload(4) + ";ret:none",
+			"inbuf;outbuf;next:-1;ret:none",
+			"write:" + g.payload(5) + ";ret:close",
+		}[g.r.Intn(8)]
+	}
+	g.emit("prog close " + closeProg)
 	g.connect()
 	nops := 6 + g.r.Intn(30)
 	for i := 0; i < nops; i++ {
 		cid := g.pickLive()
-		switch g.r.Weighted([]int{30, 30, 8, 6, 3, 3, 8, 4, 6, 3}) {
+		switch g.r.Weighted([]int{30, 30, 8, 6, 3, 3, 8, 4, 6, 3, 4, 2}) {
+		case 10:
+			// a request through the stale handle of a closed connection, typically after its descriptor
+			// number has been handed to a newer connection
+			if len(g.dead) > 0 {
+				d := g.dead[g.r.Intn(len(g.dead))]
+				if g.r.Intn(2) == 0 && len(g.live) < 4 {
+					g.connect()
+				}
+				switch g.r.Intn(3) {
+				case 0:
+					g.emit(fmt.Sprintf("async %s close", d))
+				case 1:
+					g.emit(fmt.Sprintf("async %s wake", d))
+				case 2:
+					g.emit(fmt.Sprintf("async %s write %s", d, g.payload(3)))
+				}
+				g.emit("poll")
+			}
+		case 11:
+			// the connection ends while a write of the handler (for instance inside OnClose) is bound to fail
+			if faults && cid != "" {
+				g.emit(fmt.Sprintf("inject %s %s errno %s", []string{"write", "writev"}[g.r.Intn(2)], cid, []string{"EPIPE", "ECONNRESET"}[g.r.Intn(2)]))
+				g.emit("peerclose " + cid)
+				g.emit("poll")
+				g.drop(cid)
+			}
 		case 0:
 			if cid != "" {
 				n := g.size()
@@ -223,7 +272,8 @@ func (g *sgen) stream(id int, faults bool) {
 func (g *sgen) udpCase(id int) {
 	fmt.Fprintf(&g.b, "case %d\n", id)
 	g.emit(fmt.Sprintf("newloop lt 0 %d 0 udp", g.r.Pick(0, 2048)))
-	hops := []string{"ret:none", "next:-1;ret:none", "next:3;ret:none", "peek:-1;write:" + g.payload(5) + ";ret:none", "read:2;write:" + g.payload(1+g.r.Intn(100)) + ";ret:none"}
+	hops := []string{"ret:none", "next:-1;ret:none", "next:3;ret:none", "peek:-1;write:" + g.payload(5) + ";ret:none", "read:2;write:" + g.payload(1+g.r.Intn(100)) + ";ret:none",
+		"next:-1;write:;ret:none", "write:" + g.payload(g.r.Pick(0, 1, 1472, 3000)) + ";write:;ret:none", "write:" + g.payload(2) + ";write:" + g.payload(3) + ";ret:none"}
 	g.emit("prog traffic " + hops[g.r.Intn(len(hops))])
 	n := 2 + g.r.Intn(6)
 	for i := 0; i < n; i++ {
